@@ -10,6 +10,8 @@
 (*           every step 0..len(join_points)-2;                              *)
 (*  "assign" items [id, kind, hosts, n, a, l2]: a = calculate_worker_       *)
 (*           assignments(hosts, n).                                         *)
+(* Verdict lines are printed one per failing clause: TLC wraps values wider *)
+(* than 80 columns over several lines, which the harness cannot parse.      *)
 (* L1: the clauses of property C02 on the recorded values.                  *)
 (* L2: the recorded values equal the transcription (skipped if ~l2).        *)
 (***************************************************************************)
@@ -30,12 +32,12 @@ Check(it) ==
                              /\ it.jps = JoinPoints(am)
                              /\ tpj = TasksPerJP(am)
                              /\ it.clients = MaxClients(it.s))
-        IN /\ IF l1 = {} THEN TRUE ELSE PrintT(<<"V", it.id, 1, "L1", l1>>)
+        IN /\ \A c \in l1 : PrintT(<<"V", it.id, 1, "L1", {c}>>)
            /\ IF l1 # {} \/ l2 THEN TRUE ELSE PrintT(<<"V", it.id, 1, "L2", {}>>)
     ELSE
         LET l1 == AssignFailing(it.hosts, it.n, it.a)
             l2 == ~it.l2 \/ it.a = Assign(it.hosts, it.n)
-        IN /\ IF l1 = {} THEN TRUE ELSE PrintT(<<"V", it.id, 1, "L1", l1>>)
+        IN /\ \A c \in l1 : PrintT(<<"V", it.id, 1, "L1", {c}>>)
            /\ IF l1 # {} \/ l2 THEN TRUE ELSE PrintT(<<"V", it.id, 1, "L2", {}>>)
 
 TNext == /\ i <= Len(Items)
